@@ -92,6 +92,34 @@ def run(ctx):
                 if back != dict(extra, kty=key.key_type):
                     ctx.report("importing a JWK then exporting it does not return the members given", {"given": extra, "returned": back},
                                f"asdict:{key.key_type}:members-differ")
+                # history: the dict handed to import stays the caller's - the import leaves it as given, and what the caller
+                # does to it afterwards (strip the private members to publish it, set a kid, reuse it) does not reach the key
+                from joserfc.jwk import KeySet
+                for how in ("class", "registry", "set", "class-empty-parameters"):
+                    mine = copy.deepcopy(data)
+                    before = copy.deepcopy(mine)
+                    if how == "class":
+                        k4 = cls.import_key(mine)
+                    elif how == "class-empty-parameters":
+                        k4 = cls.import_key(mine, {})
+                    elif how == "registry":
+                        k4 = JWKRegistry.import_key(mine)
+                    else:
+                        k4 = KeySet.import_key_set({"keys": [mine]}).keys[0]
+                    k4.ensure_kid()
+                    ctx.count("caller-dict", (label, fname, how), True, f"{key.key_type}:{how}")
+                    if mine != before:
+                        ctx.report("importing a JWK (and assigning the key a kid) changed the caller's dict", {"given": before, "now": mine, "how": how},
+                                   f"alias:{key.key_type}:caller-dict-changed")
+                    snap = copy.deepcopy(k4.as_dict())
+                    for m_ in ("d", "p", "q", "dp", "dq", "qi", "k", "x", "n"):
+                        mine.pop(m_, None)
+                    mine["kid"] = "published-by-the-caller"
+                    mine["alg"] = "edited"
+                    now = k4.as_dict()
+                    if now != snap:
+                        ctx.report("editing the dict a key was imported from changed what the key exports", {"before": snap, "after": now, "how": how},
+                                   f"alias:{key.key_type}:export-follows-caller-dict")
         interop(ctx, label, key, cls)
     # ---------------- malformed JWKs
     malformed(ctx, pop, classes)
